@@ -29,7 +29,7 @@ def model_check(run, max_iter, max_start):
 
 def check(run):
     thorough = run.tier == 'thorough'
-    model_check(run, 6 if thorough else 5, 2)
+    model_check(run, 10 if thorough else 6, 2)
     rnd = random.Random(run.seed + 99)
 
     def split_fn(m, nopt, sid):
